@@ -105,6 +105,16 @@ func isBlockingForever(argv []string) bool {
 // seconds by its own timeout, was reported after five).
 func stallLimit(argv []string) time.Duration {
 	limit := 8 * time.Second
+	for i, a := range argv {
+		if i == 0 {
+			continue
+		}
+		// an offset of hundreds of megabytes is legitimate (a 512 MB string) and slow on a loaded machine
+		// (false alarm of a sweep: SETBIT k0 4294967295 1 took more than 8 s next to twenty other jobs)
+		if n, err := strconv.ParseInt(a, 10, 64); err == nil && (n >= 100000000 || n <= -100000000) {
+			limit = 45 * time.Second
+		}
+	}
 	if len(argv) > 1 {
 		switch strings.ToLower(argv[0]) {
 		case "blpop", "brpop", "blmove", "brpoplpush", "blmpop":
